@@ -20,7 +20,7 @@ pub fn prop() -> Prop {
         check,
         quick_runs: 24_000,
         both_profiles: false,
-        rule: "a run = an interrogation dialogue of 1-3 aircraft (constant CA each, an advertised register set each) over a lossy, duplicating, reordering channel: DF11 / DF17 announcements, BDS 1,7 reports, and DF20/21 replies carrying BDS 2,0 / 3,0 / 4,0 / 5,0 / 6,0 built from physical values over their full ranges and both signs, at the plausibility limits, with exactly one status bit cleared, with one reserved bit set, random and zero MB; silences long enough for rows to expire so the gating state must reset; -R and -U on/off; non-trivial = at least one reply was decoded and at least one reply was (rightly) ignored; distinct = distinct scripts",
+        rule: "a run = an interrogation dialogue of 1-3 aircraft (constant CA each, an advertised register set each) over a lossy, duplicating, reordering channel: DF11 / DF17 announcements, BDS 1,7 reports, and DF20/21 replies carrying BDS 2,0 / 3,0 / 4,0 / 5,0 / 6,0 built from physical values over their full ranges and both signs, at the plausibility limits, with exactly one status bit cleared, with one reserved bit set, random and zero MB; silences long enough for rows to expire so the gating state must reset; -R and -U on/off; in 6 % of the runs the wall clock is set back once or twice; non-trivial = at least one reply was decoded and at least one reply was (rightly) ignored; distinct = distinct scripts",
         level_text: "seeded exploration of message histories against a reference gating automaton {CA recorded, registers advertised, -R} plus an independent Doc 9871 register decoder; oracle: MB-derived fields change only when gating allows and the register is valid, take the reference values, and valid in-range registers are decoded once gating allows (both turn / climb directions)",
     }
 }
@@ -156,6 +156,7 @@ fn gen(rng: &mut Rng, _idx: u64, tier: Tier) -> Case {
         let j = (i + rng.range(1, 4) as usize).min(lines.len() - 1);
         if i != j { let mut l = lines.remove(i); l.2 = format!("{}:reorder", l.2.split(':').next().unwrap_or("")); lines.insert(j, l); }
     }
+    gen::clock_steps_back(rng, &mut lines, 0.06);
     let ops = gen::ops_of(rng, lines, Chunking::Line);
     let mut script = Script::file(args, ops);
     script.tcp = rng.chance(0.15);
@@ -210,6 +211,7 @@ fn check(case: &Case, st: &mut Stats) -> Vec<Violation> {
         }
         let (Some(prev), Some(new)) = (prev, s.after.get(&a)) else { continue }; // row-creating reply: address only
         st.oracle_evals += 1;
+        if s.tag.contains("clock-back") { st.probe("clock_set_back"); }
         let mb = ehs::mb_of_frame(frame);
         let gate_open = relaxed || g.ca == Tri::Yes;
         let gate_possible = relaxed || g.ca != Tri::No;
